@@ -103,7 +103,7 @@ def path_arg_cases(pargs=None):
                 out.append((cond, S.cond_spec(cond)))
                 kind, names = T.SIG[cond[2]]
                 if kind == "multi":   # positional-list spelling too
-                    vals = [S.arg_spec(a) for a in cond[3]] + [S.arg_spec(v) for _, v in cond[4]]
+                    vals = [S.item_spec(a) for a in cond[3]] + [S.item_spec(v) for _, v in cond[4]]
                     if len(vals) == len(names) or cond[2] == "equal_to_approx":
                         out.append((cond, {next(iter(S.cond_spec(cond))): vals}))
     return out
@@ -114,7 +114,7 @@ def units(tier):
     u.append(["T"])
     u.append(["P"])
     u.append(["NOISE"])
-    u += [["PC", 0], ["PC", 1]]
+    u += [["PC", 0], ["PC", 1], ["ESC"]]
     u += [["H", i] for i in range(len(hist_pool()))]
     return u
 
@@ -148,6 +148,11 @@ def run_unit(unit, tier):
         for i, (t, spec) in enumerate(path_arg_cases()):
             check_case(res, t, spec, key=("P", i))
         res.sample({"term": path_arg_cases()[0][0], "spec": path_arg_cases()[0][1]})
+    elif unit[0] == "ESC":
+        # literal mapping arguments that have 'path' among their keys, every escaped / unescaped spelling, in every
+        # argument position the parser inspects for data paths
+        for i, (t, spec) in enumerate(S.litmap_cases()):
+            check_case(res, t, spec, key=("ESC", i))
     elif unit[0] == "PC":
         # data-path arguments that differ only in the type of an equal-valued part (1 / 1.0 / True), all parsed in one
         # process, in both orders
